@@ -24,6 +24,11 @@ func runConc(args []string) (map[string]any, error) {
 		tid++
 		exec.RunConc(w, st, tid, r, false, i%5 == 4) // every fifth run: one writer on deep keys against one saver
 	}
+	// constant-read stress: two runs (more in big runs), each several thousand updates against six readers
+	for i := 0; i < 2+*c.n/2000; i++ {
+		tid++
+		exec.RunConstStress(w, st, tid, r, 12000)
+	}
 	for i := 0; i < *nmiss; i++ {
 		tid++
 		exec.RunConc(w, st, tid, r, true, false)
